@@ -2,7 +2,9 @@
    Pinned statements only; proofs live in Num/NumProofs.v.  Models: Num/NumImpl.v (the operator macros of
    bytecode/src/variables/ops*.rs, primitive.rs equals/negate, arm by arm), specification: Num/NumSpec.v.
 
-   Full statement (property C05), for the code as fixed by fixes/num-checked-arithmetic.diff ([Fixed]):
+   Full statement (property C05), for the code as fixed by fixes/num-overflow-panics-in-every-build.diff,
+   fixes/num-byte-zero-divisor.diff and fixes/num-rem-min-by-minus-one.diff ([Fixed]; an integer overflow is a
+   Rust panic in every build, a zero divisor an error: both are failures for C05):
      for every operator, every pair of numeric kinds and ALL operand values that fit their kinds,
      the implementation yields exactly the value the specification defines -- of the kind given by the
      promotion table -- and stops with a failure (Err or Panic, never a value) exactly when the
@@ -90,7 +92,7 @@ Example C05_promotes : spec_binop (Arith Mul) (Byte 200) (Big 170141183460469231
                        = Exact (Big 34028236692093846346337460743176821000).
 Proof. vm_compute. reflexivity. Qed.
 Example C05_overflow_fails : spec_binop (Arith Add) (Int 2147483647) (Byte 1) = Undefined
-                             /\ binop_eval Fixed (Arith Add) (Int 2147483647) (Byte 1) = Err.
+                             /\ binop_eval Fixed (Arith Add) (Int 2147483647) (Byte 1) = Panic.
 Proof. split; vm_compute; reflexivity. Qed.
 Example C05_zero_divisor_fails : spec_binop (Arith Div) (Flt (F_of_Z 3)) (Byte 0) = Undefined
                                  /\ binop_eval Fixed (Arith Div) (Flt (F_of_Z 3)) (Byte 0) = Err.
